@@ -53,6 +53,13 @@ FILES = {
   'U': '19:ppp=2',
   'V': '20:ppp=2',
   'X': '6 21:ppp=3 20:ppp=2:s=31',
+  # long stretches without a granule position of the link's stream (what the page bisection has to cope with, VFSeek.tla)
+  'ZA': '6:ppp=10,1:pad=10=130018',                   # first guess of the targets 2994.. lands exactly one probe step behind the start of the data
+  'ZB': '6:pad=0=70000',                              # the first audio page ends no packet
+  'ZC': '0:ppp=2,3 6:pad=0=70000:mux=1 6:s=9',
+  'ZD': '1 6:ppp=10,1:pad=10=130019:s=77 2',
+  'ZE': '6:ppp=4,1,255:pad=4=150000',
+  'ZF': '0:ppp=3:pad=9=200000:mux=2',
   'Y': '6:s=-1 1:s=2147483647 2:s=-2147483648 6:s=0',     # extreme serial numbers (0xFFFFFFFF on a non-final link)
 }
 
@@ -168,7 +175,7 @@ def run_batch(pid, tier, scenarios, bindir, extra_prelude=None, nproc=None, dmg_
     return out
 
 # ---------------------------------------------------------------- known findings
-SPANPKT_FILES = {'H','Q'}     # files holding packets that span pages
+def _spanning(scn): return 'spanpkt' in scn.tags     # files holding packets that span pages (a pad= option in the layout)
 
 def _pred_early_page_landing(v, scn):
     """page-granularity seek succeeded, landed at or before the target and the audio is consistent, but earlier than the
@@ -177,7 +184,8 @@ def _pred_early_page_landing(v, scn):
     if e.get('ret') != 0: return False
     tgt = e.get('pos', e.get('expect'))
     if tgt is None: return False
-    return e.get('tell', 1<<40) <= tgt and any(f in SPANPKT_FILES for f in scn.files)
+    # ... and the page the seek should settle on is nothing but the tail of a packet begun earlier (field bc, computed by the harness from the page table)
+    return e.get('tell', 1<<40) <= tgt and _spanning(scn) and e.get('bc') == 1
 PREDS = {'early_page_landing': _pred_early_page_landing}
 
 def kf_matches(entry, v, scn):
@@ -274,6 +282,9 @@ def finish(pid, tier, seed, level, scenarios, res, rules_owned, t0, rule_desc, n
                harness_cpu_s=round(res['harness_s'],1), tlc_cpu_s=round(res['tlc_s'],1),
                checker_cmd='java -cp tla2tools.jar tlc2.TLC -workers 1 -config VFApi_Trace.cfg VFApi_Trace.tla (TRACE=<ndjson>)')
     if extra_cov: cov.update(extra_cov)
+    dm = (extra_cov or {}).get('design_model')
+    if isinstance(dm, dict) and 'states' in dm:
+        cov['states'] += dm['states']; cov['transitions'] += dm.get('transitions', 0)
     vlib.write_evidence(pid, tier, seed, level, cov, time.time()-t0, nviol, assumptions)
     print(f"[{pid}] tier={tier} scenarios={len(scenarios)} events={res['events']} distinct_nontrivial={len(nt)} violations={nviol} known={sum(len(v) for v in kn.values())} other_rule_notes={len(other)} wall={time.time()-t0:.1f}s")
     return rc
